@@ -2,7 +2,7 @@
 C19  Client requests are sent one at a time and answered in FIFO order.
 """
 from ..core import CaseTimeout as _CaseTimeout
-import re
+import re, json, urllib.parse
 from .. import netlab, rawpeer, tls as tlsmod
 from ..core import Result, digest
 from hio.core.http import clienting as hclienting
@@ -59,6 +59,9 @@ def run_case(tape, tier):
     for i in range(nreq):
         method = tape.pick("method", ["GET", "POST", "PUT"])
         body = b"" if method == "GET" else b"body-of-%d" % i
+        # how the payload is given: as body=, as data= (sent as JSON), as fargs= (sent as a form) or not at all; what one
+        # request was given must not show up in another
+        how = "body" if method == "GET" else tape.pick("payload_how", ["body", "body", "data", "fargs", "none"])
         hops = []
         for h in range(tape.geometric("nhops", 3, 1, 4)):
             hops.append(dict(status=tape.pick("rstatus", [301, 302, 303, 307]),
@@ -67,10 +70,10 @@ def run_case(tape, tier):
             hops[-1]["query"] = tape.flag("loc_query", 1, 3)     # Location carries a query string
             if hops[-1]["target"] in STUCK:
                 break      # a redirect that cannot be followed ends the chain: the 3xx itself is the answer
-        spec = dict(i=i, method=method, body=body, hops=hops, delay=tape.pick("delay", [0, 0, 1, 3, 8]),
+        spec = dict(i=i, method=method, body=body, how=how, hops=hops, delay=tape.pick("delay", [0, 0, 1, 3, 8]),
                     framing=tape.pick("framing", ["length", "length", "chunked"]), nfrag=1 + tape.draw("nfrag", 4))
         reqs.append(spec)
-    special = tape.pick("special", ["none", "none", "close-delimited-last", "peer-closes-mid", "https-to-http"])
+    special = tape.pick("special", ["none", "none", "close-delimited-last", "peer-closes-mid", "https-to-http", "close-then-reconnect"])
     if special == "https-to-http" and not tls:
         special = "none"
     if tls and special == "none" and tape.flag("force_refusal", 1, 2):
@@ -79,6 +82,10 @@ def run_case(tape, tier):
     if special == "peer-closes-mid" and nreq >= 2:
         close_at = tape.draw("close_at", nreq)
     refuse_at = tape.draw("refuse_at", nreq) if special == "https-to-http" else None
+    # a client set up to reconnect on its own, and a peer that answers one request completely with `Connection: close` and
+    # closes: the requests still queued go out over the next connection, one at a time and in order as ever
+    rc_at = tape.draw("rc_at", nreq) if special == "close-then-reconnect" else None
+    tyme = [0.0]
     if refuse_at is not None:
         # the refused hop: Location is plain http, on another port or on the very port the https peer listens on
         r = reqs[refuse_at]
@@ -86,8 +93,8 @@ def run_case(tape, tier):
         del r["hops"][k:]
         r["hops"] = [h for h in r["hops"] if h["target"] not in STUCK]
         r["hops"].append(dict(status=302, target=tape.pick("downgrade", ["downgrade-other", "downgrade-same"])))
-    cfg = dict(tls=tls, special=special, close_at=close_at, refuse_at=refuse_at,
-               requests=[dict(i=r["i"], method=r["method"], hops=r["hops"], delay=r["delay"], framing=r["framing"], nfrag=r["nfrag"]) for r in reqs])
+    cfg = dict(tls=tls, special=special, close_at=close_at, refuse_at=refuse_at, rc_at=rc_at,
+               requests=[dict(i=r["i"], method=r["method"], how=r["how"], hops=r["hops"], delay=r["delay"], framing=r["framing"], nfrag=r["nfrag"]) for r in reqs])
     raised = []
     log = []          # ('req', mid, hop, peer) / ('done', mid, hop)
     inflight = {}     # (mid, hop) -> True while the response is not completely handed to the kernel
@@ -103,11 +110,31 @@ def run_case(tape, tier):
         srvH = rawpeer.RawServer(net, PORT_HTTP, "peerHTTP", tls=False)
         net.current_owner = "client0"
         kwa = dict(context=tlsmod.SimSSLContext(net, False), certedhost="localhost") if tls else {}
-        client = hclienting.Client(hostname="127.0.0.1", port=lab.port, scheme="https" if tls else "http", tymth=lambda: 0.0, **kwa)
+        if rc_at is not None:
+            kwa.update(reconnectable=True, tymeout=tape.pick("retry_tymeout", [0.5, 1.0]))
+        client = hclienting.Client(hostname="127.0.0.1", port=lab.port, scheme="https" if tls else "http", tymth=lambda: tyme[0], **kwa)
         client.reopen()
         net.current_owner = None
         for r in reqs:
-            client.request(method=r["method"], path="/m%d" % r["i"], body=r["body"], mid=r["i"])
+            if r["how"] == "data":
+                client.request(method=r["method"], path="/m%d" % r["i"], data=dict(req=r["i"], kind="json"), mid=r["i"])
+            elif r["how"] == "fargs":
+                client.request(method=r["method"], path="/m%d" % r["i"], fargs=dict(req=str(r["i"]), kind="form"), mid=r["i"])
+            elif r["how"] == "none":
+                client.request(method=r["method"], path="/m%d" % r["i"], mid=r["i"])
+            else:
+                client.request(method=r["method"], path="/m%d" % r["i"], body=r["body"], mid=r["i"])
+
+        def payload_ok(rq, reqbody):
+            """is reqbody what request rq was queued with (by meaning for JSON and forms, not by byte)"""
+            try:
+                if rq["how"] == "data":
+                    return json.loads(reqbody.decode()) == dict(req=rq["i"], kind="json")
+                if rq["how"] == "fargs":
+                    return urllib.parse.parse_qs(reqbody.decode()) == dict(req=[str(rq["i"])], kind=["form"])
+            except ValueError:
+                return False
+            return reqbody == (b"" if rq["how"] == "none" else rq["body"])
         violation = []
 
         def respond_bytes(r, hop, peer_port):
@@ -137,6 +164,9 @@ def run_case(tape, tier):
             last = r["i"] == nreq - 1
             if special == "close-delimited-last" and last:
                 return b"HTTP/1.0 200 OK\r\nContent-Type: text/plain\r\n\r\n" + body, True
+            if rc_at == r["i"]:
+                res.faults["complete_response_then_close"] += 1
+                return b"HTTP/1.1 200 OK\r\nConnection: close\r\nContent-Length: %d\r\n\r\n" % len(body) + body, True
             if r["framing"] == "chunked":
                 half = len(body) // 2
                 return (b"HTTP/1.1 200 OK\r\nTransfer-Encoding: chunked\r\n\r\n%x\r\n" % half + body[:half] + b"\r\n%x\r\n" % (len(body) - half) +
@@ -168,9 +198,9 @@ def run_case(tape, tier):
                 wire_query = (mp.group(4) or b"").decode()
                 if mid < len(reqs):
                     rq = reqs[mid]
-                    if hop == 0 and (wire_method != rq["method"] or reqbody != rq["body"]):
+                    if hop == 0 and (wire_method != rq["method"] or not payload_ok(rq, reqbody)):
                         violation.append(("wrong-request-on-wire", "request %d was queued as %s with body %r but went out as %s with body %r" % (
-                            mid, rq["method"], rq["body"], wire_method, reqbody)))
+                            mid, rq["method"], (rq["how"], rq["body"]), wire_method, reqbody)))
                     if 0 < hop <= len(rq["hops"]):
                         prev = rq["hops"][hop - 1]
                         wantq = ("?hop=%d&x=ab" % hop) if prev.get("query") else ""
@@ -231,6 +261,8 @@ def run_case(tape, tier):
         for step in range(steps):
             res.steps += 1
             nev = len(net.events)
+            if rc_at is not None:
+                tyme[0] += 0.125
             net.current_owner = "client0"
             try:
                 client.service()
@@ -245,6 +277,7 @@ def run_case(tape, tier):
             while len(snaps) < len(client.responses):
                 e = client.responses[len(snaps)]
                 snaps.append(dict(mid=e["request"].get("mid"), status=e["status"], body=bytes(e["body"]), errored=e["errored"],
+                                  given=(e["request"].get("data"), e["request"].get("fargs")),
                                   redirects=[x["status"] for x in e.get("redirects", [])]))
             if srvA is None and step >= late_listen:
                 srvA = rawpeer.RawServer(net, lab.port, "peerA", tls=tls)
@@ -277,13 +310,28 @@ def run_case(tape, tier):
                 res.violate("fifo-duplicate", "duplicate entries %s" % mids)
             elif len(client.responses) != len(snaps):
                 res.violate("fifo-duplicate", "entries disappeared from client.responses")
-            elif not early_close and len(mids) != nreq:
+            elif rc_at is not None and [m for m in range(nreq) if m not in mids and
+                                        ("done", m, stuck_at(reqs[m]) if stuck_at(reqs[m]) is not None else len(reqs[m]["hops"])) in log]:
+                # (a request written to the connection the peer was closing is lost with it, as on any closing peer; what
+                # is demanded is an entry for every request the peer answered completely)
+                res.violate("fifo-missing", "the peer answered requests %s completely, client.responses has entries for %s only" % (
+                    [m for m in range(nreq) if ("done", m, stuck_at(reqs[m]) if stuck_at(reqs[m]) is not None else len(reqs[m]["hops"])) in log], mids))
+            elif not early_close and rc_at is None and len(mids) != nreq:
                 res.violate("fifo-missing", "%d of %d requests got an entry in client.responses within the drain bound (markers %s, "
                             "waited=%s, requests left=%d)" % (len(mids), nreq, mids, client.waited, len(client.requests)))
             else:
                 for e in resp:
                     mid = e["mid"]
                     r = reqs[mid]
+                    if not r["hops"]:
+                        # the originating request it carries: the payload arguments are this request's own
+                        want = (dict(req=mid, kind="json") if r["how"] == "data" else None,
+                                dict(req=str(mid), kind="form") if r["how"] == "fargs" else None)
+                        res.comparisons += 1
+                        if e["given"] != want:
+                            res.violate("entry-carries-foreign-request", "entry for request %d (queued with %s) carries a request "
+                                        "with data=%r fargs=%r" % (mid, r["how"], e["given"][0], e["given"][1]))
+                            break
                     if close_at is not None and mid >= close_at:
                         continue
                     sa = stuck_at(r)
